@@ -27,6 +27,8 @@ func main() {
 		os.Exit(checkCmd(os.Args[2:]))
 	case "ssa":
 		ssaCmd(os.Args[2:])
+	case "funcs":
+		funcsCmd(os.Args[2:])
 	case "replay":
 		os.Exit(replayCmd(os.Args[2:]))
 	default:
@@ -138,6 +140,24 @@ func unitCmd(args []string) {
 		core.CleanupTmp()
 		os.Exit(1)
 	}
+}
+
+// funcsCmd: govc funcs [--repo dir] <pkgdir>... prints {"<pkgdir>": [function keys]} (the baseline file).
+func funcsCmd(args []string) {
+	fs := flag.NewFlagSet("funcs", flag.ExitOnError)
+	repo := fs.String("repo", "/repo", "repository root")
+	fs.Parse(args)
+	out := map[string][]string{}
+	for _, rel := range fs.Args() {
+		e, err := core.Load(*repo, rel)
+		if err != nil {
+			fmt.Fprintln(os.Stderr, "govc:", err)
+			os.Exit(2)
+		}
+		out[filepath.Clean(rel)] = e.FuncKeys()
+	}
+	data, _ := json.MarshalIndent(out, "", " ")
+	fmt.Println(string(data))
 }
 
 func verifRoot() string {
